@@ -1,2 +1,70 @@
-(* C12 - augmentation only adds, calendarisation only removes (theorems added as they are proved) *)
-From BSE Require Import Model.Val Model.Augment.
+(* C12 - augmentation only adds, calendarisation only removes, by the documented rules.  Statements: Proofs/AugmentDefs.v. *)
+From Coq Require Import Sorting.Permutation Sorting.Sorted.
+From BSE Require Import Model.Val Model.Num Model.Basis Model.Manip Model.Augment Proofs.AugmentDefs.
+From BSE Require Proofs.AugmentSpec.
+
+Theorem sorted_exponents_spec : sorted_exponents_spec_stmt.
+Proof. exact AugmentSpec.sorted_exponents_spec. Qed.
+Print Assumptions sorted_exponents_spec.
+
+Theorem free_primitives_spec : free_primitives_spec_stmt.
+Proof. exact AugmentSpec.free_primitives_spec. Qed.
+Print Assumptions free_primitives_spec.
+
+(* the new exponents x(x/y)^i are positive fractions; on the diffuse side (0 < x < y) each lies strictly below the previous one
+   and below x; on the steep side (x > y > 0) strictly above *)
+Theorem aug_value_positive : aug_value_den_stmt.
+Proof. exact AugmentSpec.aug_value_den. Qed.
+Print Assumptions aug_value_positive.
+
+Theorem aug_outside_diffuse : aug_outside_diffuse_stmt.
+Proof. exact AugmentSpec.aug_outside_diffuse. Qed.
+Print Assumptions aug_outside_diffuse.
+
+Theorem aug_outside_steep : aug_outside_steep_stmt.
+Proof. exact AugmentSpec.aug_outside_steep. Qed.
+Print Assumptions aug_outside_steep.
+
+Theorem aug_value_zero : aug_value_zero_stmt.
+Proof. exact AugmentSpec.aug_value_zero. Qed.
+Print Assumptions aug_value_zero.
+
+(* a momentum gets nothing, or - exactly when its two outermost primitives are free - exactly n unit shells x(x/y)^i, i=1..n *)
+Theorem augment_shell_spec : augment_shell_spec_stmt.
+Proof. exact AugmentSpec.augment_shell_spec. Qed.
+Print Assumptions augment_shell_spec.
+
+Theorem augment_shell_count : augment_shell_count_stmt.
+Proof. exact AugmentSpec.augment_shell_count. Qed.
+Print Assumptions augment_shell_count.
+
+Theorem augment_equal_outer_refused : augment_equal_outer_refused_stmt.
+Proof. exact AugmentSpec.augment_equal_outer_refused. Qed.
+Print Assumptions augment_equal_outer_refused.
+
+(* calendarisation: only a most-diffuse primitive is ever removed, decided by the momentum alone *)
+Theorem remove_primitive_spec : remove_primitive_spec_stmt.
+Proof. exact AugmentSpec.remove_primitive_spec. Qed.
+Print Assumptions remove_primitive_spec.
+
+Theorem element_remove_diffuse_spec : element_remove_diffuse_spec_stmt.
+Proof. exact AugmentSpec.element_remove_diffuse_spec. Qed.
+Print Assumptions element_remove_diffuse_spec.
+
+Theorem truhlar_refuses : truhlar_refuses_stmt.
+Proof. exact AugmentSpec.truhlar_refuses. Qed.
+Print Assumptions truhlar_refuses.
+
+Theorem truhlar_unknown_month : truhlar_unknown_month_stmt.
+Proof. exact AugmentSpec.truhlar_unknown_month. Qed.
+Print Assumptions truhlar_unknown_month.
+
+Theorem month_offsets : month_offsets_stmt.
+Proof. exact AugmentSpec.month_offsets. Qed.
+Print Assumptions month_offsets.
+
+Example aug_demo :
+  augment_shell 2 false (mkShell "gto" "" [0%Z] ["10.0"; "2.0"; "0.5"] [["0.3"; "0.7"; "0.0"]; ["0.0"; "1.0"; "0.0"]; ["0.0"; "0.0"; "1.0"]])
+  = inr [ {| ns_ftype := "gto"; ns_region := ""; ns_am := [0%Z]; ns_exp := (250, 2000)%Z |};
+          {| ns_ftype := "gto"; ns_region := ""; ns_am := [0%Z]; ns_exp := (12500, 400000)%Z |} ].
+Proof. vm_compute. reflexivity. Qed.
